@@ -527,7 +527,12 @@ func seekScope(c *Ctx, s *Stmt) bool {
 	return len(as) == 1 && s.Unconditional(as[0]) && dependsOnSubscriptionLookup(c, s, as[0].Arg)
 }
 
-func reopenMuts(s *Stmt) (bool, string) {
+func reopenMuts(s *Stmt) (ok bool, why string) {
+	withBind(s, func() { ok, why = reopenMuts0(s) })
+	return
+}
+
+func reopenMuts0(s *Stmt) (bool, string) {
 	cl := s.Mut("completed_at", "clear")
 	ex := s.Mut("expires_at", "set")
 	at := s.Mut("attempt_at", "set")
@@ -1119,3 +1124,131 @@ func ruleC15_3(c *Ctx, r *Rep) {
 }
 
 func makeClosureOrFunc(f *ssa.Function) bool { return f.Parent() != nil }
+
+// C12.2 (chain): between the driver and the duplicate-key test nothing may flatten the error chain —
+// isSqlDuplicateKeyError finds the driver error with errors.As, so every layer that re-wraps an error on the
+// storage path (schema hooks, transaction helpers, actions) must wrap with %w.
+func ruleC12_2chain(c *Ctx, r *Rep) {
+	errIface := types.Universe.Lookup("error").Type().Underlying().(*types.Interface)
+	n := 0
+	for _, f := range c.Funcs {
+		pk := c.PkgOf(f)
+		if !(pk == "ent/schema" || pk == "ent" || pk == "actions") || c.EntShape().isGenerated(f) || c.testSupport(f) {
+			continue
+		}
+		for _, ci := range callsIn(f, false, func(cal *ssa.Function, _ ssa.CallInstruction) bool { return fnPkgPath(cal) == "fmt" && cal.Name() == "Errorf" }) {
+			args := ci.Common().Args
+			format, isC := constString(args[0])
+			if !isC || len(args) < 2 {
+				continue
+			}
+			nerr := 0
+			for _, el := range c.EntShape().sliceElems(args[1], &frame{bind: map[*ssa.Parameter]ssa.Value{}}, 0) {
+				if _, unk := el.v.(unknownSlice); unk {
+					continue
+				}
+				v := el.v
+				if mi, ok := v.(*ssa.MakeInterface); ok {
+					v = mi.X
+				}
+				if ci2, ok := v.(*ssa.ChangeInterface); ok {
+					v = ci2.X
+				}
+				if types.Implements(v.Type(), errIface) {
+					nerr++
+				}
+			}
+			if nerr == 0 {
+				continue
+			}
+			n++
+			r.Check("C12.2", fmt.Sprintf("C12.2:error-chain#%d@%s", n, c.Key(f)), ci.Pos(), strings.Count(format, "%w") >= nerr, "errors are wrapped with %w",
+				"an error is re-wrapped on the storage path without %w (format "+fmt.Sprintf("%q", format)+"): the driver's unique-violation can no longer be recognised by errors.As, so the loser of a create race gets Unknown instead of AlreadyExists")
+		}
+	}
+	r.OK("C12.2", "C12.2:error-chain", 0, fmt.Sprintf("%d re-wrapping sites on the storage path, all with %%w", n))
+}
+
+// C15.4: the background maintenance loops keep running: their wake-up source is a ticker, or a timer that is
+// re-armed on every path of the loop body (a job that stops waking up leaves everything after it unreclaimed).
+func ruleC15_4(c *Ctx, r *Rep) {
+	for _, k := range []string{"(*services.pruneService).Start", "(*services.deadLetter).Start"} {
+		fn := r.Anchor("C15.4", k)
+		if fn == nil {
+			continue
+		}
+		ok, why := false, "the service loop does not wait on a ticker / timer"
+		for _, b := range fn.Blocks {
+			for _, in := range b.Instrs {
+				sel, isSel := in.(*ssa.Select)
+				if !isSel || !sel.Blocking {
+					continue
+				}
+				for i, st := range sel.States {
+					src := sources(st.Chan)
+					if !(src["field:C"] && (src["call:NewTicker"] || src["call:NewTimer"])) {
+						continue
+					}
+					if src["call:NewTicker"] {
+						ok = true
+						continue
+					}
+					// a one-shot timer: every path from this case back to the select must Reset it
+					var entry *ssa.BasicBlock
+					if refs := sel.Referrers(); refs != nil {
+						for _, u := range *refs {
+							ex, isEx := u.(*ssa.Extract)
+							if !isEx || ex.Index != 0 {
+								continue
+							}
+							if er := ex.Referrers(); er != nil {
+								for _, cmp := range *er {
+									if bo, isB := cmp.(*ssa.BinOp); isB && bo.Op == token.EQL {
+										if kk, isK := constInt(bo.Y); isK && int(kk) == i {
+											if cr := bo.Referrers(); cr != nil {
+												for _, uu := range *cr {
+													if iff, isIf := uu.(*ssa.If); isIf {
+														entry = iff.Block().Succs[0]
+													}
+												}
+											}
+										}
+									}
+								}
+							}
+						}
+					}
+					if entry == nil {
+						ok, why = false, "could not locate the timer case"
+						continue
+					}
+					ok = true
+					seen := map[*ssa.BasicBlock]bool{}
+					var walk func(x *ssa.BasicBlock)
+					walk = func(x *ssa.BasicBlock) {
+						if seen[x] || !ok {
+							return
+						}
+						seen[x] = true
+						for _, in2 := range x.Instrs {
+							if call, isC := in2.(*ssa.Call); isC {
+								if cal := call.Call.StaticCallee(); cal != nil && fnPkgPath(cal) == "time" && cal.Name() == "Reset" {
+									return
+								}
+							}
+							if in2 == ssa.Instruction(sel) {
+								ok, why = false, "a run can end without re-arming the one-shot timer (e.g. after a partial batch): the job never wakes up again and what it should reclaim stays behind"
+								return
+							}
+						}
+						for _, s2 := range x.Succs {
+							walk(s2)
+						}
+					}
+					walk(entry)
+				}
+			}
+		}
+		r.Check("C15.4", "C15.4:loop-keeps-waking@"+k, fn.Pos(), ok, "periodic ticker (or timer re-armed on every path)", why)
+	}
+}
